@@ -108,7 +108,7 @@ func (tc *typechecker) checkIdentifier(ident *ast.Identifier, used bool) *typeIn
 				if nestedFuncs := tc.scopes.Functions(); len(nestedFuncs) > 0 {
 					upvar := ast.Upvar{
 						NativeName:      ident.Name,
-						NativePkg:       ident.Name,
+						NativePkg:       ti.NativePackageName,
 						NativeValue:     rv,
 						NativeValueType: ti.Type,
 					}
